@@ -326,6 +326,11 @@ func checkC05(c *Check) {
 	headersOwnBacking(c, "C05.R5", R)
 	storesReportFailedRemoval(c, "C05.R2")
 	cookieDecoderComplete(c, "C05.R2")
+	// the ids handed out are new: every draw is fresh CSPRNG output that is only read afterwards (C06.R1) — a generator
+	// that replays a pool of bytes re-issues ids other clients still hold
+	if c.ID == "C05" {
+		importObls(c, "C06", checkC06, "C05.R1", func(o *Obligation) bool { return strings.HasPrefix(o.Key, "C06.R1/") })
+	}
 
 	// ---- R6: the cookie call under LogoutMatch true has timeout 0 and a constant value
 	found := false
